@@ -55,6 +55,8 @@ type c14Cli struct {
 	DurMS     int    // -duration
 	MaxBodyAs string // notation used for -max-body ("" = plain integer)
 	BodyPipe  bool   `json:",omitempty"` // the -body file is a named pipe (process substitution, /dev/stdin)
+	// -proxy-header flags (meant for the CONNECT request to a proxy; none is in use here, so nothing of them may reach the target)
+	ProxyHeaders []c14CliKV `json:",omitempty"`
 }
 
 const wireBody = "0123456789"
@@ -246,6 +248,15 @@ func runC14Cli(c c14Cli) error {
 	for _, kv := range c.DefHeaders {
 		args = append(args, "-header="+kv.K+": "+kv.V)
 	}
+	for i, kv := range c.ProxyHeaders {
+		// (given before, between and after the -header flags)
+		arg := "-proxy-header=" + kv.K + ": " + kv.V
+		if i%2 == 0 {
+			args = append([]string{arg}, args...)
+		} else {
+			args = append(args, arg)
+		}
+	}
 	if c.DefBody != nil {
 		bf := filepath.Join(dir, "defbody")
 		if c.BodyPipe {
@@ -314,6 +325,14 @@ func runC14Cli(c c14Cli) error {
 			// net/http writes each value on its own line, in order
 			if strings.Join(got, "\x00") != strings.Join(vs, "\x00") {
 				return fmt.Errorf("%s: header %q on the wire = %q, want %q (defaults first, the target's own values added, exact letter case); all: %v", what, k, got, vs, rq.Header)
+			}
+		}
+		for _, kv := range c.ProxyHeaders {
+			if _, own := want[kv.K]; own {
+				continue
+			}
+			if got, ok := rq.Header[kv.K]; ok {
+				return fmt.Errorf("%s: header %q = %q on the wire, which was given with -proxy-header only (and no proxy is in use); all: %v", what, kv.K, got, rq.Header)
 			}
 		}
 		te := strings.ToLower(strings.Join(rq.Header["Transfer-Encoding"], ","))
@@ -419,6 +438,12 @@ func TestC14Cli(t *testing.T) {
 			}
 			c.DefHeaders = append(c.DefHeaders, kv)
 			defKeys = append(defKeys, kv.K)
+		}
+		if rapid.IntRange(0, 2).Draw(t, "proxyhdrs") == 0 {
+			c.ProxyHeaders = []c14CliKV{{"X-Proxy-Only", "p1"}}
+			if len(defKeys) > 0 && rapid.Bool().Draw(t, "proxyshared") {
+				c.ProxyHeaders = append(c.ProxyHeaders, c14CliKV{defKeys[0], "proxy-value"}) // the same key as a -header flag
+			}
 		}
 		if rapid.Bool().Draw(t, "defbody") {
 			c.DefBody = []byte("default body")
